@@ -1,6 +1,8 @@
 pub mod rec;
 pub mod arena;
 pub mod gen;
+pub mod coll;
+pub mod cgen;
 
 #[global_allocator]
 static GLOBAL: rec::Rec = rec::Rec;
